@@ -37,6 +37,13 @@ type bindB struct {
 	Extra   string   `form:"extra" query:"extra" json:"extra" xml:"extra"`
 }
 
+// bindT uses a different field name in every source, so a bind through the wrong tag shows
+type bindT struct {
+	XMLName xml.Name `form:"-" query:"-" header:"-" json:"-" xml:"bindT"`
+	Age     int      `form:"f_age" query:"q_age" header:"X-Age" json:"j_age" xml:"x_age"`
+	Name    string   `form:"f_name" query:"q_name" header:"X-Name" json:"j_name" xml:"x_name"`
+}
+
 // bindV carries validation rules for the stock validator
 type bindV struct {
 	XMLName xml.Name `form:"-" query:"-" json:"-" xml:"bindV"`
@@ -124,7 +131,7 @@ func (v *recValidator) Validate(i any) error {
 }
 
 func runC18(e *Env) {
-	e.Rule = "decision table: 9 methods x content types {form-urlencoded, multipart/form-data with boundary, application/json, text/json, application/xml, text/xml - each with and without '; charset=utf-8' - text/plain, application/yaml, application/octet-stream, application/form-data, empty}; every request carries DIFFERENT data in the query string and in the body (and a key that exists only in the query), so the bound value reveals the source. Round trip: values of representative structs (ints incl. negative/large, strings with unicode, separators, quotes, angle brackets, blanks, bools, []string, []int) encoded by independent encoders (url.Values.Encode, mime/multipart, encoding/json, encoding/xml) and bound back through binding.Auto, Context.Bind/AutoBind, ShouldBind(JSON|XML|Form|Query), BindJSON/BindXML/BindForm: deep equality. Malformed: random byte strings and truncations/mutations of valid bodies under every content type: error or success, never a panic. Validation: a recording validator with a predicate, the stock validator with validate tags, and the validator disabled. Single-threaded (the validator is a package global). Non-trivial: a body-method request, a string with separators/unicode, a malformed body, or a validator decision; distinct by case."
+	e.Rule = "decision table: 9 methods x content types {form-urlencoded, multipart/form-data with boundary, application/json, text/json, application/xml, text/xml - each with and without '; charset=utf-8' - text/plain, application/yaml, application/octet-stream, application/form-data, empty}; every request carries DIFFERENT data in the query string and in the body (and a key that exists only in the query), so the bound value reveals the source. Round trip: values of representative structs (ints incl. negative/large, strings with unicode, separators, quotes, angle brackets, blanks, bools, []string, []int) encoded by independent encoders (url.Values.Encode, mime/multipart, encoding/json, encoding/xml) and bound back through binding.Auto, Context.Bind/AutoBind, ShouldBind(JSON|XML|Form|Query), BindJSON/BindXML/BindForm: deep equality. Malformed: random byte strings and truncations/mutations of valid bodies under every content type: error or success, never a panic. Sequences: histories of 3..8 binds through different binders (query, form, multipart, header, JSON, XML) on a struct whose field names differ per source, incl. bodies whose reader fails mid-way; every bind must behave as if it were the first one. Validation: a recording validator with a predicate, the stock validator with validate tags, and the validator disabled. Single-threaded (the validator is a package global). Non-trivial: a body-method request, a string with separators/unicode, a malformed body, or a validator decision; distinct by case."
 	e.Assumptions = []string{
 		"XML strings are restricted to characters XML can carry (no \\r); JSON strings are valid UTF-8",
 		"every bind uses a fresh request (binding the same parsed form twice is outside the statement)",
@@ -415,6 +422,83 @@ func runC18(e *Env) {
 		}
 	})
 
+	// ---- sequences over several binders (order must not matter), incl. body readers that fail ----
+	e.RunCases("binder-sequences", e.N(3000, 300000), 1, func(t *T) {
+		r := t.R
+		n := 3 + r.IntN(6)
+		var steps []string
+		t.Describe(func() any { return map[string]any{"steps": steps} })
+		t.AutoSample()
+		t.NonTrivial(fmt.Sprint(t.Idx))
+		for i := 0; i < n; i++ {
+			age := 1 + r.IntN(90)
+			name := pick(r, []string{"ann", "bob", "cy"}) + strconv.Itoa(r.IntN(100))
+			kind := pick(r, []string{"query", "form", "header", "json", "xml", "multipart", "json-read-error", "xml-read-error"})
+			var req *http.Request
+			var got bindT
+			var err error
+			wantOK := true
+			switch kind {
+			case "query":
+				req = NewReqBody("GET", "/p", "", nil)
+				req.URL.RawQuery = url.Values{"q_age": {strconv.Itoa(age)}, "q_name": {name}}.Encode()
+				err = binding.Auto(req, &got)
+			case "form":
+				req = NewReqBody("POST", "/p", "application/x-www-form-urlencoded", []byte(url.Values{"f_age": {strconv.Itoa(age)}, "f_name": {name}}.Encode()))
+				err = binding.Auto(req, &got)
+			case "multipart":
+				ct, body := multipartBody(url.Values{"f_age": {strconv.Itoa(age)}, "f_name": {name}})
+				req = NewReqBody("PUT", "/p", ct, body)
+				err = binding.Auto(req, &got)
+			case "header":
+				req = NewReqBody("GET", "/p", "", nil)
+				req.Header.Set("X-Age", strconv.Itoa(age))
+				req.Header.Set("X-Name", name)
+				err = binding.Header.Bind(req, &got)
+			case "json", "json-read-error":
+				body, _ := json.Marshal(map[string]any{"j_age": age, "j_name": name})
+				req = NewReqBody("POST", "/p", "application/json", body)
+				if kind == "json-read-error" {
+					// the connection breaks after the complete document plus some padding has arrived
+					req.Body = io.NopCloser(&failingReader{data: string(body) + "   "})
+					req.ContentLength = -1
+				}
+				err = binding.Auto(req, &got)
+			default:
+				body, _ := xml.Marshal(bindT{Age: age, Name: name})
+				req = NewReqBody("PATCH", "/p", "text/xml", body)
+				if kind == "xml-read-error" {
+					req.Body = io.NopCloser(&failingReader{data: string(body[:len(body)/2])})
+					req.ContentLength = -1
+					wantOK = false
+				}
+				err = binding.Auto(req, &got)
+			}
+			steps = append(steps, fmt.Sprintf("%s age=%d name=%s -> err=%v bound {%d %s}", kind, age, name, err, got.Age, got.Name))
+			t.Count("sequences."+kind, 1)
+			if kind == "json-read-error" {
+				// the streaming decoder may or may not notice the late read error: both are fine,
+				// but a success must carry THIS request's data
+				if err == nil && (got.Age != age || got.Name != name) {
+					t.Fail("bind-sequence-stale-data", "step %d (%s): bound {%d %q}, the request carried {%d %q}; history: %v", i, kind, got.Age, got.Name, age, name, steps)
+					return
+				}
+				continue
+			}
+			if !wantOK {
+				if err == nil {
+					t.Fail("bind-sequence-truncated-accepted", "step %d (%s): a truncated document was bound without error: {%d %q}; history: %v", i, kind, got.Age, got.Name, steps)
+					return
+				}
+				continue
+			}
+			if err != nil || got.Age != age || got.Name != name {
+				t.Fail("bind-depends-on-earlier-binds", "step %d (%s): err=%v bound {%d %q}, the request carried {%d %q} - the same bind succeeds as the first one of a process; history: %v", i, kind, err, got.Age, got.Name, age, name, steps)
+				return
+			}
+		}
+	})
+
 	// ---- validation ----
 	e.RunCases("validation", e.N(4000, 300000), 1, func(t *T) {
 		r := t.R
@@ -515,6 +599,8 @@ func runC18(e *Env) {
 	e.Require("validation.stock", 300)
 	e.Require("validation.disabled", 300)
 	e.Require("validation.empty_source", 200)
+	e.Require("sequences.header", 500)
+	e.Require("sequences.json-read-error", 500)
 	e.Require("roundtrip.unknown_content_length", 500)
 }
 
